@@ -287,19 +287,9 @@ Section Peers.
   Definition int64 (i : Z) : Prop := -9223372036854775808 <= i < 9223372036854775808.
   Definition short (b : bytes) : Prop := Z.of_nat (length b) < 2147483632.
 
-  (* what one channel hands to its connection arrives at the peer's channel as this label *)
-  Definition arrives_as (e : event) : option label :=
-    match msg_of_event wire_of e with
-    | Some m => match wire_parse (wire_ser m) with
-                | Some m' => Some (label_of_msg content_of m')
-                | None => None
-                end
-    | None => None
-    end.
-
   Theorem request_arrives i svc meth req :
     int64 i -> short svc -> short meth -> short (wire_of req) ->
-    arrives_as (ESendRequest i svc meth req) = Some (LRequest (mkReq i svc meth (Valid req))).
+    arrives_as wire_of content_of (ESendRequest i svc meth req) = Some (LRequest (mkReq i svc meth (Valid req))).
   Proof.
     intros Hi Hs Hm Hq. unfold arrives_as. cbn [msg_of_event].
     rewrite wire_roundtrip.
@@ -310,7 +300,7 @@ Section Peers.
 
   Theorem reply_arrives i m :
     int64 i -> short (wire_of m) ->
-    arrives_as (ESendResponse i (RReply m)) = Some (LResponse i (mkBody (Some (Valid m)) None)).
+    arrives_as wire_of content_of (ESendResponse i (RReply m)) = Some (LResponse i (mkBody (Some (Valid m)) None)).
   Proof.
     intros Hi Hq. unfold arrives_as. cbn [msg_of_event].
     rewrite wire_roundtrip.
@@ -321,7 +311,7 @@ Section Peers.
 
   Theorem error_reply_arrives i e :
     int64 i ->
-    arrives_as (ESendResponse i (RError e)) = Some (LResponse i (mkBody None (Some e))).
+    arrives_as wire_of content_of (ESendResponse i (RError e)) = Some (LResponse i (mkBody None (Some e))).
   Proof.
     intros Hi. unfold arrives_as. cbn [msg_of_event].
     rewrite wire_roundtrip.
@@ -330,10 +320,10 @@ Section Peers.
   Qed.
   Lemma frames_arrive :
     (forall i svc meth req, int64 i -> short svc -> short meth -> short (wire_of req) ->
-       arrives_as (ESendRequest i svc meth req) = Some (LRequest (mkReq i svc meth (Valid req)))) /\
+       arrives_as wire_of content_of (ESendRequest i svc meth req) = Some (LRequest (mkReq i svc meth (Valid req)))) /\
     (forall i m, int64 i -> short (wire_of m) ->
-       arrives_as (ESendResponse i (RReply m)) = Some (LResponse i (mkBody (Some (Valid m)) None))) /\
+       arrives_as wire_of content_of (ESendResponse i (RReply m)) = Some (LResponse i (mkBody (Some (Valid m)) None))) /\
     (forall i e, int64 i ->
-       arrives_as (ESendResponse i (RError e)) = Some (LResponse i (mkBody None (Some e)))).
+       arrives_as wire_of content_of (ESendResponse i (RError e)) = Some (LResponse i (mkBody None (Some e)))).
   Proof. exact (conj request_arrives (conj reply_arrives error_reply_arrives)). Qed.
 End Peers.
